@@ -225,6 +225,7 @@ static sqfs_s32 gzip_do_block(sqfs_compressor_t *base, const sqfs_u8 *in,
 
 static sqfs_object_t *gzip_create_copy(const sqfs_object_t *cmp)
 {
+	const gzip_compressor_t *orig = (const gzip_compressor_t *)cmp;
 	gzip_compressor_t *gzip = malloc(sizeof(*gzip));
 	int ret;
 
@@ -234,11 +235,15 @@ static sqfs_object_t *gzip_create_copy(const sqfs_object_t *cmp)
 	memcpy(gzip, cmp, sizeof(*gzip));
 	memset(&gzip->strm, 0, sizeof(gzip->strm));
 
+	/*
+	  Duplicate the stream itself instead of creating a new one from the
+	  option fields: the two can differ (read_options updates the fields
+	  but not the stream), and the copy must behave like the original.
+	 */
 	if (gzip->compress) {
-		ret = deflateInit2(&gzip->strm, gzip->opt.level, Z_DEFLATED,
-				   gzip->opt.window, 8, Z_DEFAULT_STRATEGY);
+		ret = deflateCopy(&gzip->strm, (z_streamp)&orig->strm);
 	} else {
-		ret = inflateInit(&gzip->strm);
+		ret = inflateCopy(&gzip->strm, (z_streamp)&orig->strm);
 	}
 
 	if (ret != Z_OK) {
